@@ -429,7 +429,7 @@ pub fn run_cluster(run: &mut Run) {
             skipped += 1;
             continue;
         }
-        let cfg = NetCfg { max_states: if quick { 30000 } else { 200000 }, max_path: 200, budget: std::time::Duration::from_secs(if quick { 12 } else { 200 }), workers: crate::util::workers() };
+        let cfg = NetCfg { max_states: if quick { 30000 } else { 200000 }, max_path: 200, budget: std::time::Duration::from_secs(if quick { 12 } else { 200 }), workers: crate::util::workers(), by_deviations: false };
         let mk = || build_cluster(*a, *wn, writes, *res);
         let none = |_: &NetWorld, _: &[T]| -> Vec<(String, String)> { vec![] };
         let onq = |w: &NetWorld, _: &[T]| cluster_oracle(w, *res);
